@@ -176,7 +176,10 @@ class BatchBase(futures.FutureBase):
 
     def dump(self, indent=0):
         debug.write(debug.str(self), indent)
-        debug.write("Priority: %s" % debug.repr(self.get_priority()), indent + 1)
+        if self.items and not self.is_computed():
+            # Like the scheduler, ask only a batch that can still be flushed for its priority:
+            # get_priority() is user code and may rely on the batch having items.
+            debug.write("Priority: %s" % debug.repr(self.get_priority()), indent + 1)
         if self.items:
             debug.write("Items:", indent + 1)
             for item in self.items:
